@@ -383,6 +383,16 @@ void session_interface::save()
 	set_session_cookie(cookie_age(),temp_cookie_);
 	temp_cookie_.clear();
 
+	if(!force_update) {
+		// The session cookie was rewritten and may carry a new life time (renewal, reset, other
+		// expiration mode): exposed values that did not change are skipped by update_exposed(),
+		// send them once again so that they live exactly as long as the session does
+		for(data_type::iterator p=data_.begin();p!=data_.end();++p) {
+			data_type::iterator p2=data_copy_.find(p->first);
+			if(p->second.exposed && p2!=data_copy_.end() && p2->second.exposed && p2->second.value==p->second.value)
+				set_session_cookie(cookie_age(),p->second.value,p->first);
+		}
+	}
 	update_exposed(force_update);	
 	saved_=true;
 }
